@@ -521,10 +521,12 @@ pub fn run(run: &mut Run) {
     }
     run.assumptions.push("a rank floor(p n) is ambiguous when p n lies within 1e-9 max(1,n) of an integer (the reference p differs from the crate's by up to 1e-13); round(q n) is ambiguous only when rounding the exact product and rounding the correctly rounded f64 product disagree; either neighbour is accepted and the case is counted".into());
     run.assumptions.push("the bracket relation (lower <= round(q n) <= upper + 1) is required for two-sided confidence and for one-sided confidence at level >= 1/2".into());
+    crate::props::history::add(run, "C03", &[crate::props::history::QUANT, crate::props::history::QIDX, crate::props::history::WILSON], 3_000, 200_000);
 }
 
 pub fn replay(sub: &str, v: &Value, obs: &mut Obs) -> Option<PResult> {
     Some(match sub {
+        "history" => crate::props::history::case(&de(v), obs),
         "rank" | "rank_random" => rank_case(&de(v), obs),
         "index" => index_case(&de(v), obs),
         "elements" | "elements_random" => elem_case(&de(v), obs),
